@@ -6,7 +6,7 @@ from . import bodies
 from .gen import gen_algebra, variant_of, Pool, dim_of, grade, gen_value
 from .ops import BINARY_OPS, UNARY_OPS, INFIX, UNARY_INFIX
 
-KINDS = ['int', 'float', 'Fraction', 'nd1', 'nd2', 'sympy', 'mixed', 'ndcont', 'intnd', 'tupcont', 'complex', 'ndconti', 'ndcont2', 'bool', 'npscalar', 'zeros', 'negint']
+KINDS = ['int', 'float', 'Fraction', 'nd1', 'nd2', 'sympy', 'mixed', 'ndcont', 'intnd', 'tupcont', 'complex', 'ndconti', 'ndcont2', 'bool', 'npscalar', 'zeros', 'negint', 'symzero']
 HEAVY = {'div', 'inv', 'sqrt', 'outertan', 'outerexp', 'outersin', 'outercos', 'proj', 'sw', 'normsq'}
 INNER = {
     'sw': [('bin', 'gp', (0, 1)), ('un', 'reverse', (0,))],
@@ -46,6 +46,11 @@ def value_of_kind(rng, kind, j):
         return {'nd': [rng.choice([-2, -1, 1, 2, 3]) for _ in range(3)], 'dt': 'int64'}
     if kind == 'sympy':
         return {'s': f's{j}'}
+    if kind == 'symzero':
+        # symbols next to exact zeros of every spelling (the key pattern is the same, whatever the values)
+        if j == 0 or rng.random() < 0.45:
+            return {'s': f's{j}'}
+        return rng.choice([0, 0, {'f': 0.0}, {'s': '0'}])
     if kind == 'ndcont':
         return gen_value(rng, 'float')
     if kind in ('tupcont', 'ndconti'):
@@ -78,7 +83,7 @@ def fill(rng, shape, kind):
         return {'k': 'list', 'of': [fill(rng, x, kind) for x in r['of']], 'tuple': r.get('tuple', False)}
     n = r.pop('n', None)
     if k == 'num':
-        kk = kind if kind in ('int', 'float', 'Fraction', 'sympy', 'complex', 'bool', 'npscalar', 'zeros', 'negint') else 'float'
+        kk = kind if kind in ('int', 'float', 'Fraction', 'sympy', 'complex', 'bool', 'npscalar', 'zeros', 'negint', 'symzero') else 'float'
         r['v'] = value_of_kind(rng, kk, 9)
         return r
     if k == 'sym':
@@ -271,7 +276,7 @@ def gen_trace10(rng, tier='quick', crit_names=(), targets=()):
     for i in range(n_ops):
         dsc = descs[order[i]] if order is not None else rng.choice(descs)
         kind = rng.choice(kinds_cycle)
-        if kind == 'sympy' and not sympy_ok(dsc, d):
+        if kind in ('sympy', 'symzero') and not sympy_ok(dsc, d):
             kind = 'int'
         op = {k: v for k, v in dsc.items() if k != 'shapes'}
         op['args'] = [fill(rng, s, kind) for s in dsc['shapes']]
